@@ -178,7 +178,7 @@ def stopLine (j : Json) : P StopLineD := do
 
 def lanelet (j : Json) : P LaneletD := do
   pure { id := ← getInt j "id", left := ← getList pt j "left", right := ← getList pt j "right",
-         lmLeft := ← getOpt asStr j "lml", lmRight := ← getOpt asStr j "lmr", pred := ← getList asInt j "pred",
+         lmLeft := ← getStr j "lml", lmRight := ← getStr j "lmr", pred := ← getList asInt j "pred",
          succ := ← getList asInt j "succ", adjL := ← getOpt intBool j "adjl", adjR := ← getOpt intBool j "adjr",
          stop := ← getOpt stopLine j "stop", types := ← getList asStr j "types", oneWay := ← getList asStr j "oneway",
          bidir := ← getList asStr j "bidir", signs := ← getList asInt j "signs", lights := ← getList asInt j "lights" }
@@ -186,7 +186,7 @@ def lanelet (j : Json) : P LaneletD := do
 def sign (j : Json) : P SignD := do
   let els ← getList (fun e => do
     match ← asArr e with
-    | [i, vs] => pure (← asStr i, ← listOf asStr vs)
+    | [c, i, vs] => pure (← asStr c, ← asStr i, ← listOf asStr vs)
     | _ => throw "sign element") j "elements"
   pure { id := ← getInt j "id", elements := els, pos := ← getOpt pt j "pos", virtual := ← getOpt asBool j "virtual" }
 
@@ -197,7 +197,7 @@ def light (j : Json) : P LightD := do
       | [d, col] => pure (← asInt d, ← asStr col)
       | _ => throw "cycle element") c "elements"
     pure (es, ← getOpt asInt c "offset")) j "cycle"
-  pure { id := ← getInt j "id", cycle := cyc, pos := ← getOpt pt j "pos", direction := ← getOpt asStr j "direction",
+  pure { id := ← getInt j "id", cycle := cyc, pos := ← getOpt pt j "pos", direction := ← getStr j "direction",
          active := ← getOpt asBool j "active" }
 
 def incoming (j : Json) : P IncomingD := do
@@ -234,7 +234,7 @@ def location (j : Json) : P LocationD := do
   pure { geoNameId := ← getInt j "geoNameId", lat := ← num (← field j "lat"), lon := ← num (← field j "lon"), geo := geo, env := env }
 
 def docD (j : Json) : P DocD := do
-  pure { precision := ← getNat j "precision", dt := ← num (← field j "dt"), version := ← getStr j "version",
+  pure { precision := ← getNat j "precision", dt := ← num (← field j "dt"),
          author := ← getStr j "author", affiliation := ← getStr j "affiliation", source := ← getStr j "source",
          benchmark := ← getStr j "benchmark", date := ← getStr j "date", location := ← location (← field j "location"),
          tags := ← getList asStr j "tags", lanelets := ← getList lanelet j "lanelets", signs := ← getList sign j "signs",
